@@ -240,6 +240,9 @@ mod d {
                 &|_u, _v, e| match ea {
                     1 => Some(vec![("w".to_string(), format!("{}", e))]),
                     2 if e.n() % 2 == 0 => Some(vec![("w".to_string(), format!("{}", e))]),
+                    // direction-sensitive callbacks: the attribute names both endpoints in order / exists for one orientation only
+                    3 => Some(vec![("p".to_string(), format!("{}>{}:{}", _u.key(), _v.key(), e))]),
+                    4 if _u.key().n() < _v.key().n() => Some(vec![("w".to_string(), format!("{}", e))]),
                     _ => None,
                 },
             )
@@ -286,6 +289,9 @@ mod sd {
                 &|_u, _v, e| match ea {
                     1 => Some(vec![("w".to_string(), format!("{}", e))]),
                     2 if e.n() % 2 == 0 => Some(vec![("w".to_string(), format!("{}", e))]),
+                    // direction-sensitive callbacks: the attribute names both endpoints in order / exists for one orientation only
+                    3 => Some(vec![("p".to_string(), format!("{}>{}:{}", _u.key(), _v.key(), e))]),
+                    4 if _u.key().n() < _v.key().n() => Some(vec![("w".to_string(), format!("{}", e))]),
                     _ => None,
                 },
             )
@@ -383,6 +389,9 @@ mod u {
                 &|_u, _v, e| match ea {
                     1 => Some(vec![("w".to_string(), format!("{}", e))]),
                     2 if e.n() % 2 == 0 => Some(vec![("w".to_string(), format!("{}", e))]),
+                    // direction-sensitive callbacks: the attribute names both endpoints in order / exists for one orientation only
+                    3 => Some(vec![("p".to_string(), format!("{}>{}:{}", _u.key(), _v.key(), e))]),
+                    4 if _u.key().n() < _v.key().n() => Some(vec![("w".to_string(), format!("{}", e))]),
                     _ => None,
                 },
             )
